@@ -535,6 +535,23 @@ func valueDerivesFromCallTo(v ssa.Value, fn *ssa.Function) bool {
 				}
 			}
 		}
+		if al, ok := x.(*ssa.Alloc); ok {
+			// a struct/array cell: whole-value stores and field stores
+			for _, st := range cellStores(al) {
+				if walk(st.Val, d+1) {
+					return true
+				}
+			}
+			for _, r := range *al.Referrers() {
+				if fa, ok := r.(*ssa.FieldAddr); ok {
+					for _, u := range *fa.Referrers() {
+						if st, ok := u.(*ssa.Store); ok && st.Addr == fa && walk(st.Val, d+1) {
+							return true
+						}
+					}
+				}
+			}
+		}
 		in, ok := x.(ssa.Instruction)
 		if !ok {
 			return false
